@@ -1,9 +1,9 @@
-\* every pair of well-formed indexes over keys {a, a/x, a/y}, one file meta, two file hashes, 12 option sets
+\* every pair of well-formed indexes over keys {a, a/x, a/y}, two file metas (one with a checksum), 3 comparison keys, two file hashes, 36 option sets
 SPECIFICATION Spec
 CONSTANTS
     Keys <- KeysM
     Parent <- ParentM
-    FileMetas = {"f1"}
+    FileMetas = {"f1", "f3"}
     FileHashes = {"h1", "h2"}
     Root = ""
 INVARIANT Inv_Done
